@@ -22,6 +22,11 @@ open Spec (Routes rget replay)
 theorem consts_are_protocol : inf = 16 ∧ Ndn.Gen.C19.fetchGap = 100 ∧ Ndn.Gen.C19.snapshotThreshold = 100 :=
   ⟨rfl, rfl, rfl⟩
 
+/-- `NfdMgmtThread.Exec` queues every command with a blocking send (regenerated from dv/nfdc/nfdc.go): no
+    command the installer emits is ever dropped on the way to the forwarder — the assumption under which the
+    replay of the EMITTED stream (theorems below) is the forwarder's route table. -/
+theorem exec_never_drops_commands : Ndn.Gen.C19.execSendBlocks = true := rfl
+
 /-! ### (A) installed routes mirror the tables -/
 
 /-- what can happen between two route updates: ANY change of the tables (RIB, neighbour faces,
